@@ -1,6 +1,7 @@
 //! Operations that are not part of the generic registry: user S-box for Gost89, Threefish tweaks and
 //! u64 entry points, RC2 effective key length, BelT wide block and raw block, conversion routes for the
 //! AES and Kuznyechik Enc/Dec types, bcrypt primitives, AES hazmat functions.
+use crate::neon_kuz::{NeonKuznyechik, NeonKuznyechikDec, NeonKuznyechikEnc};
 use crate::{DecOnly, EncOnly, Full, Obj, hex, probe, unhex, zero};
 use cipher::{BlockCipherDecrypt, BlockCipherEncrypt, KeyInit};
 
@@ -227,6 +228,8 @@ pub fn route_instance(fam: &str, route: &str, k: &[u8]) -> Option<Box<dyn Obj>> 
         "Aes192" => route_obj!(aes::Aes192, aes::Aes192Enc, aes::Aes192Dec, route, k),
         "Aes256" => route_obj!(aes::Aes256, aes::Aes256Enc, aes::Aes256Dec, route, k),
         "Kuznyechik" => route_obj!(kuznyechik::Kuznyechik, kuznyechik::KuznyechikEnc, kuznyechik::KuznyechikDec, route, k),
+        "NeonKuznyechik" => route_obj!(NeonKuznyechik, NeonKuznyechikEnc, NeonKuznyechikDec, route, k),
+        f if f.starts_with("Armv8") => crate::armv8sh::route_instance(fam, route, k),
         _ => None,
     }
 }
@@ -301,6 +304,7 @@ pub fn exec(t: &[&str]) -> Option<String> {
                 Some("Kuznyechik") => {
                     routes!(kuznyechik::Kuznyechik, kuznyechik::KuznyechikEnc, kuznyechik::KuznyechikDec, route, &k)
                 }
+                Some("NeonKuznyechik") => routes!(NeonKuznyechik, NeonKuznyechikEnc, NeonKuznyechikDec, route, &k),
                 _ => "bad-op".into(),
             })
         }
@@ -319,6 +323,7 @@ pub fn exec(t: &[&str]) -> Option<String> {
                 Some("Kuznyechik") => {
                     zroutes!(kuznyechik::Kuznyechik, kuznyechik::KuznyechikEnc, kuznyechik::KuznyechikDec, route, &keys)
                 }
+                Some("NeonKuznyechik") => zroutes!(NeonKuznyechik, NeonKuznyechikEnc, NeonKuznyechikDec, route, &keys),
                 _ => "bad-op".into(),
             })
         }
